@@ -664,7 +664,7 @@ func (sh *shared) record(ex *Exec, res pathResult) {
 	if res.viol != nil {
 		sig := res.viol.Kind + "|" + res.viol.Msg
 		if res.viol.Kind == "panic" {
-			sig += "|" + res.viol.Where
+			sig = "panic|" + res.viol.Where
 		}
 		sh.violSigs[sig]++
 		if sh.violSigs[sig] <= 1 {
